@@ -336,4 +336,21 @@ MacroStep(c, opt, orc, S0, clk0) ==
           A4 == ApplyAll(c, opt, orc, A3, plan)
           A5 == EndInvariants(c, opt, orc, A4)
       IN DoMeta(opt, orc, A5, "end", 0, 0, 0)
+
+(* Interpreter.execute(max_steps): execute_once until it returns None, or max_steps macro steps   *)
+(* (max <= 0: no bound; `fuel` only bounds the model on non-quiescent charts).  Returns the last  *)
+(* accumulator with steps = all micro steps of all macro steps, log = all logs, n = macro steps.  *)
+RECURSIVE RunMany(_, _, _, _, _, _, _, _)
+RunMany(c, opt, orc, S, clk, max, acc, fuel) ==
+  LET A == MacroStep(c, opt, orc, S, clk) IN
+  IF A.exc # "" THEN [acc EXCEPT !.S = A.S, !.clk = A.clk, !.exc = A.exc, !.eobj = A.eobj, !.eidx = A.eidx,
+                                 !.log = @ \o A.log]
+  ELSE IF A.steps = <<>> THEN [acc EXCEPT !.S = A.S, !.clk = A.clk, !.log = @ \o A.log]
+  ELSE LET acc2 == [acc EXCEPT !.S = A.S, !.clk = A.clk, !.log = @ \o A.log, !.steps = @ \o A.steps,
+                               !.n = @ + 1]
+       IN IF (max > 0 /\ acc2.n = max) \/ fuel = 0 THEN acc2
+          ELSE RunMany(c, opt, orc, A.S, A.clk, max, acc2, fuel - 1)
+
+ExecuteMany(c, opt, orc, S, clk, max) ==
+  RunMany(c, opt, orc, S, clk, max, [Acc0(S, clk) EXCEPT !.log = <<>>] @@ [n |-> 0], 8)
 =============================================================================
